@@ -30,6 +30,7 @@ func checkC07(r *Run) {
 	r.Rule("C07.R2.sync", "all receivers route only into the synchronizer, which counts unique leaseholders and emits the merged response", 8)
 	r.Rule("C07.R3.sender", "BatchSwitchSender.send and confluence.BatchSwitch both remove a target's entry after sending to it", 2)
 	r.Rule("C07.R5.broadcast", "the writer's peer switch addresses every peer for every command when acknowledgements are synchronous (the synchronizer counts one response per leaseholder)", 1)
+	r.Rule("C07.R6.ack", "freeWriter.transform returns a response on every path except after an error or when acknowledgements are not synchronous (it is one of the responders the synchronizer counts)", 1)
 	r.Rule("C07.R4.mask", "every range over Frame.RawKeys()/RawSeries() calls ShouldExcludeRaw on the loop index", 8)
 
 	checkExistenceGates(r, p)
@@ -37,6 +38,53 @@ func checkC07(r *Run) {
 	checkSenderForgets(r, p)
 	checkMaskDiscipline(r, p)
 	checkPeerBroadcast(r, p)
+	checkFreeWriterAck(r, p)
+}
+
+// checkFreeWriterAck decides C07.R6: the free (virtual-channel) writer is one of the
+// responders the synchronizer counts. With synchronous acknowledgements it must answer
+// every request; the only paths that return no response are an error and "not sync".
+func checkFreeWriterAck(r *Run, p *Prog) {
+	fn := p.Func(dwPkg, "freeWriter", "transform")
+	if fn == nil {
+		r.Undecide("C07.R6: writer.freeWriter.transform not found")
+		return
+	}
+	c := p.CFG(fn)
+	okAtom := func(atom ast.Expr) bool {
+		atom = ast.Unparen(atom)
+		if o, trueMeansNil, ok := nilCompare(fn, atom); ok && isErrorType(o.Type()) && !trueMeansNil {
+			return true // err != nil
+		}
+		if u, ok := atom.(*ast.UnaryExpr); ok && u.Op == token.NOT {
+			if sel, ok := ast.Unparen(u.X).(*ast.SelectorExpr); ok && sel.Sel.Name == "sync" {
+				return true // !w.sync
+			}
+		}
+		return false
+	}
+	blocked := c.TrueEdgesOfDisjunctionOf(okAtom)
+	q, vis := c.ReachAvoiding([]Point{c.Entry()}, blocked, nil)
+	var path []string
+	nResp := 0
+	for _, ex := range c.Exits() {
+		silent := false
+		switch {
+		case ex.Return == nil, len(ex.Return.Results) == 0:
+			silent = true // named results: no response was built
+		case len(ex.Return.Results) == 3:
+			if id, ok := ast.Unparen(ex.Return.Results[1]).(*ast.Ident); ok && id.Name == "false" {
+				silent = true
+			} else {
+				nResp++
+			}
+		}
+		if silent && vis[ex.P] {
+			path = q.PathTo(ex.P)
+		}
+	}
+	r.ObPath("C07.R6.ack", "the free writer answers every request unless it failed or acknowledgements are off", p.Position(fn.Pos()), path == nil && nResp > 0 && len(blocked) > 0,
+		"a path returns no response with synchronous acknowledgements on: the synchronizer waits for this responder and the caller's Write never returns", path)
 }
 
 // checkPeerBroadcast decides C07.R5: the synchronizer waits for one acknowledgement per
